@@ -210,6 +210,7 @@ def run(ck):
         if fn in P:
             retry_loop_rule(ck, u, eng, fn, P[fn], basep, totp)
     rule_d(ck, u, eng, P)
+    rule_internal_counts(ck, u, ub, so)
     rule_e(ck, u, eng, P)
     rule_f(ck, u, ub, so, P, eng)
     rule_ext(ck, u, ub, so)
@@ -250,6 +251,44 @@ def rule_d(ck, u, eng, P):
                    if bad is None else bad)
 
 
+def rule_internal_counts(ck, u, ub, so):
+    """C17.d (callers inside the module): the exact calls refuse a count of 0 with -EINVAL, so no plumbing function may hand
+    them a count that can be 0 - a zero-length delivery of a driver ("nothing moved, ask again") would surface as an
+    invalid-argument error in the middle of a transfer."""
+    eng = sym.Engine(u, sizeof=so, inline={'byte_buffer_rest'}, other_units=[ub])
+    n = 0
+    for fn in sorted(f for f in u.functions_in_file('endpoints/core.c') if u.body(f) is not None):
+        body = u.body(fn)
+        if fn in ('source_get_chunk', 'sink_put_chunk') or \
+                not any(cast.callee_name(c) in ('source_get_chunk', 'sink_put_chunk') for c in cast.calls_in(body)):
+            continue
+        try:
+            ps = eng.paths(fn)
+        except (sym.Unsupported, sym.PathLimit) as e:
+            ck.broken('C17.d', fn + ':counts', cast.where(u.fn(fn)), str(e))
+            continue
+        bad = None
+        for p in ps:
+            for e in p.calls():
+                if e.name not in ('source_get_chunk', 'sink_put_chunk'):
+                    continue
+                n += 1
+                # facts known when the call is made: conditions on its own result come later
+                facts = eng.path_facts([c for c in p.cond_terms() if not sym.contains(c, e.result)])
+                # a buffer handed out by an endpoint's extension is a byte buffer: offset <= used <= size (C18)
+                for x in sym.subterms(e.args[2]):
+                    if x[0] == 'fv' and x[2] in ('used', 'offset', 'size'):
+                        o_, u_, s_ = (('fv', x[1], k) for k in ('offset', 'used', 'size'))
+                        facts += [lin.le(L(o_), L(u_)), lin.le(L(u_), L(s_))]
+                if not eng.entails(facts, Lin.const(1) - L(strip_cast(e.args[2]))):
+                    bad = bad or ('%s is called with the count %s, which can be 0 under {%s}: the call refuses 0 with -EINVAL, so a driver\'s '
+                                  'zero-length delivery ends the transfer with an invalid-argument error'
+                                  % (e.name, fmt(e.args[2]), '; '.join(fmt(c) for c in p.cond_terms() if not sym.contains(c, e.result))[-200:]))
+        ck.verdict(bad is None, 'C17.d', fn + ':counts', cast.where(u.fn(fn)),
+                   'every exact get/put it makes has a count known to be >= 1' if bad is None else bad)
+    ck.floor('C17.d', 'internal exact get/put calls examined', n, 3)
+
+
 def rule_e(ck, u, eng, P):
     for fn in ('source_get_chunk_atmost', 'sink_put_chunk_atmost'):
         if fn not in P:
@@ -279,35 +318,94 @@ def rule_f(ck, u, ub, so, P, engf):
 
     def eng_is_bool(k):
         return (engf.types.get(k) or '').replace('const ', '').strip() in ('_Bool', 'bool')
-    # sts_cbc
+    # sts_cbc: one octet from the source to the sink.  The one-shot octet calls hand the driver's result through, and a
+    # driver may answer 0 ("nothing moved, ask again", see the contract at the top of core.c): the local octet is written
+    # only when the result is >= 1, and the sink has taken it only when its result is >= 1.  The exact chunk calls with a
+    # count of 1 retry by themselves and answer 1 or a negative error (C17.a / C17.c).
     if 'sts_cbc' in P:
         bad = None
+        GET = {'source_get_octet': None, 'source_get_chunk': 2}
+        PUT = {'sink_put_octet': None, 'sink_put_chunk': 2}
+
+        def delivered(p, e, table):
+            """is the call known to have moved its one octet on this path?"""
+            ca = table[e.name]
+            if ca is not None:
+                # exact call: non-negative result == requested count, which has to be 1
+                return e.args[ca] == C(1) and engf.entails(engf.path_facts(p), -L(e.result))
+            return engf.entails(engf.path_facts(p), Lin.const(1) - L(e.result))
+        nok = 0
         for p in P['sts_cbc']:
-            g = p.calls('source_get_octet')
-            s = p.calls('sink_put_octet')
+            g = [e for e in p.calls() if e.name in GET]
+            s = [e for e in p.calls() if e.name in PUT]
             if len(g) != 1:
-                bad = 'expected one source_get_octet'
+                bad = 'expected one get of one octet, found %s' % [e.name for e in g]
                 break
-            neg = any(c == ('cmp', '<', g[0].result, C(0)) for c in p.cond_terms())
+            neg = engf.entails(engf.path_facts(p), L(g[0].result) + 1)
             if neg:
                 if s or strip_cast(p.ret) != g[0].result:
                     bad = 'source error not returned unchanged / sink called after a source error'
-            else:
-                if len(s) != 1 or strip_cast(p.ret) != s[0].result:
-                    bad = 'expected exactly one sink_put_octet whose result is returned'
+                continue
+            if s:
+                if not delivered(p, g[0], GET):
+                    bad = ('the sink is given the local octet under {%s} although the source may have delivered nothing (result 0 is "nothing moved, ask '
+                           'again"): an octet that was never read is put' % '; '.join(fmt(c) for c in p.cond_terms()))
+                    continue
+                dst = g[0].args[1]
+                val = s[0].args[1]
+                if val[0] == '&' or PUT[s[0].name] is not None:
+                    ok = strip_cast(val) == strip_cast(dst)
                 else:
-                    # the octet put is the local the source wrote into
-                    dst = g[0].args[1]
-                    val = s[0].args[1]
                     ok = dst[0] == '&' and (sym.contains(val, dst[1]) or (val[0] == 'h' and fmt(dst[1]) in val[1]))
-                    if not ok:
-                        bad = 'octet put (%s) is not the octet got into %s' % (fmt(val), fmt(dst))
-        ck.verdict(bad is None, 'C17.f', 'sts_cbc', where('sts_cbc'), 'one get then one put of the same octet; source error returned unchanged' if bad is None else bad)
+                if len(s) != 1 or not ok:
+                    bad = 'octet put (%s) is not the octet got into %s' % (fmt(val), fmt(dst))
+                    continue
+            # what the caller counts: a non-negative result stands for exactly one octet moved (sts_n_cbc, sts_atmost)
+            if p.ret is None:
+                bad = 'no result'
+                continue
+            may_nonneg = engf.feasible(p.cond_terms(), [-L(strip_cast(p.ret))]) if not sym.is_c(p.ret) else p.ret[1] >= 0
+            if may_nonneg:
+                nok += 1
+                if not s:
+                    bad = 'a non-negative result is returned under {%s} without putting the octet' % '; '.join(fmt(c) for c in p.cond_terms())
+                elif not sym.is_c(p.ret) and strip_cast(p.ret) == s[0].result and PUT[s[0].name] is None and not delivered(p, s[0], PUT):
+                    bad = ('the sink\'s one-shot result is returned as the count under {%s}: a sink answering 0 ("nothing moved") has not taken the octet, '
+                           'which was already removed from the source - it is lost, and callers count it as moved' % '; '.join(fmt(c) for c in p.cond_terms()))
+                elif sym.is_c(p.ret) and p.ret[1] != 1:
+                    bad = 'returns %d for one octet moved' % p.ret[1]
+                elif sym.is_c(p.ret) and not delivered(p, s[0], PUT):
+                    bad = 'reports one octet moved although the sink may not have taken it'
+        if nok == 0 and bad is None:
+            bad = 'no path reports an octet moved'
+        ck.verdict(bad is None, 'C17.f', 'sts_cbc', where('sts_cbc'),
+                   'one get then one put of the same octet, each known to have moved it before the octet is used / counted; source error returned unchanged' if bad is None else bad)
     # counted loops over a step function, decided with the ghost quantity Moved (octets moved so far):
     #   Moved = n - rest for a countdown variable, Moved = i for an index variable starting at 0
     #   base Moved = 0; a step that reports k >= 0 octets raises Moved by exactly k (k = 1 for the octet step);
     #   a step that is retried or failed leaves it; an iteration needs Moved < n and asks for at most n - Moved;
     #   the loop is left on completion only with Moved == n, and n is returned
+    def no_progress_repeat(p, r, lmap):
+        """an iteration that repeats the loop after a step without progress: allowed for the retry signals, for a step that
+        moved nothing (0), and for a one-way switch of the route (a boolean loop variable known false before and true
+        after) - anything else can repeat for ever, pulling octets out of the source each time"""
+        facts = engf.path_facts(p)
+        if not engf.feasible(p.cond_terms(), [L(r) + 1]):
+            return None                                      # r >= 0 on this path
+        sig = [c for c in p.cond_terms() if c[0] == 'cmp' and c[1] == '==' and strip_cast(c[2]) == r and sym.is_c(c[3])]
+        if sig and all(c[3][1] in (EINTR, EAGAIN) for c in sig):
+            return None
+        for k, (h, pre) in lmap.items():
+            if not eng_is_bool(k):
+                continue
+            post = p.mem.get(k, h)
+            was_false = engf.entails(facts, L(h)) and engf.entails(facts, -L(h))
+            if was_false and sym.is_c(post) and post[1] == 1:
+                return None
+        return ('the loop is repeated after the step failed with %s under {%s} without a one-way change of route: the same failing step is '
+                'taken again and again (each attempt may pull more octets out of the source), the call never returns or ends with the '
+                'source\'s end instead of the error' % (fmt(sig[0][3]) if sig else 'a negative result', '; '.join(fmt(c) for c in p.cond_terms()[-3:])))
+
     def counted(fn, step, step_bound_arg=None, unit=None):
         if fn not in P:
             return
@@ -378,6 +476,7 @@ def rule_f(ck, u, ub, so, P, engf):
             else:
                 if not (mv.is_const() and mv.c == 0):
                     bad = 'the count of moved octets changes by %s on an iteration whose step did not report progress' % mv
+                bad = bad or no_progress_repeat(p, r, lmap)
         if not seen_err and bad is None:
             bad = 'no path returns a negative step result'
         if not seen_done and bad is None:
@@ -406,6 +505,8 @@ def rule_f(ck, u, ub, so, P, engf):
                     ok_ret = True
                 else:
                     bad = 'drain returns %s under {%s}' % (fmt(p.ret), '; '.join(fmt(c) for c in p.cond_terms()[-2:]))
+            elif p.end == 'loopback' and st and p.loops:
+                bad = bad or no_progress_repeat(p, st[-1].result, p.loops[-1][1])
         if not ok_ret and bad is None:
             bad = 'no path returns the first negative step result'
         ck.verdict(bad is None, 'C17.f', fn, where(fn), 'repeats the step until its first negative result and returns that' if bad is None else bad)
@@ -562,6 +663,10 @@ def rule_ext(ck, u, ub, so):
                 if neg:
                     if put or strip_cast(p.ret) != r:
                         bad = bad or 'source error not returned unchanged'
+                elif not put and eng.entails(facts, L(r)):
+                    # an error or nothing delivered (r <= 0): nothing to put, the result is handed on unchanged
+                    if strip_cast(p.ret) != r:
+                        bad = bad or 'returns %s when the source reported %s' % (fmt(p.ret), fmt(r))
                 else:
                     if len(put) != 1 or put[0].args[1] != tr[0].args[1] or strip_cast(put[0].args[2]) != r:
                         bad = bad or 'puts %s, expected exactly the octets just obtained' % ([fmt(a) for a in put[0].args] if put else None)
